@@ -649,7 +649,11 @@ func genFanIn(_ *rng, k int) *AWf {
 
 func cmdLoop(args []string) int {
 	var fanIn int
-	c, _ := parseCommon("loop", args, func(fs *flag.FlagSet) { fs.IntVar(&fanIn, "fanin", 0, "fan-in shape with k extra steps") })
+	var litGates bool
+	c, _ := parseCommon("loop", args, func(fs *flag.FlagSet) {
+		fs.IntVar(&fanIn, "fanin", 0, "fan-in shape with k extra steps")
+		fs.BoolVar(&litGates, "litgates", false, "some steps get a literal `enabled` value (C04)")
+	})
 	w := openOut(c.out)
 	defer w.close()
 	r := newRng(c.seed)
@@ -660,7 +664,7 @@ func cmdLoop(args []string) int {
 		}
 		w.emit(map[string]any{"kind": "begin", "index": i})
 		o := genOpts{maxSteps: 4 + cr.intn(4), tags: cr.chance(1, 2), failOutputs: true, enabled: cr.chance(1, 2),
-			stopIf: false, waitFor: cr.chance(1, 2)}
+			stopIf: false, waitFor: cr.chance(1, 2), litGates: litGates}
 		if c.tier == "thorough" {
 			o.maxSteps = 4 + cr.intn(12)
 		}
